@@ -17,8 +17,8 @@ CLASSES = {
   'MessageProperties': dict(file='scales/constants.py', path='MessageProperties'),
   # gevent's AsyncResult as the repository uses it: observable value / exception, readiness (ghost),
   # and a ghost count of set()/set_exception() calls
-  'AsyncResult': dict(extern=True, path=None, fields={'value': 'any', 'exception': 'any', 'g_sets': 'int', 'g_value': 'any', 'g_failed': 'bool', 'g_ready': 'bool'},
-                      ghost=['g_sets', 'g_value', 'g_failed', 'g_ready'], bases=[]),
+  'AsyncResult': dict(file='scales/asynchronous.py', path='AsyncResult', fields={'value': 'any', 'exception': 'any', 'g_sets': 'int', 'g_value': 'any', 'g_failed': 'bool', 'g_ready': 'bool', 'g_links': 'int'},
+                      ghost=['g_sets', 'g_value', 'g_failed', 'g_ready', 'g_links'], bases=[]),
   # any ClientMessageSink used as a member channel; its state is an opaque observable
   'Channel': dict(extern=True, path=None, fields={'state': 'int', 'on_faulted': 'Observable', 'g_opens': 'int', 'g_closes': 'int'}, ghost=['g_opens', 'g_closes'], bases=['ClientMessageSink']),
 }
